@@ -296,6 +296,9 @@ func (w *c02World) afterCall(cl *cloudctl.Cloud, c *cloudctl.Call) {
 		if k == nil {
 			return
 		}
+		if os.Getenv("VERIF_C02_DUMP") != "" {
+			fmt.Printf("TRACE afterCall %s told=%+v ips=%v err=%q\n", c.Kind, c.ToldIPs, c.IPs, c.Err)
+		}
 		for _, ip := range c.ToldIPs { // also on error: the EFLO client answers created names
 			if c.Kind == cloudctl.KAssign4 {
 				k.v4[c08Key(ip)] = true
@@ -390,17 +393,6 @@ func (w *c02World) step(tag string) c02StepResult {
 	for id := range cur.Status.NetworkInterfaces {
 		w.everRecorded[id] = true
 	}
-	// a failed record write may lose what the controller was told in that pass; the loss
-	// is repaired by the next pass that completes a full sync and persists it
-	if w.writeErrs > w.writes {
-		w.writeLost = true
-	} else if w.writes > 0 {
-		for i := range res.calls {
-			if res.calls[i].Kind == cloudctl.KDescribe && res.calls[i].Err == "" && len(res.calls[i].IDs) == 0 {
-				w.writeLost = false
-			}
-		}
-	}
 	for i := range res.calls {
 		c := &res.calls[i]
 		if c.Kind != cloudctl.KDescribe || c.Err != "" || len(c.IDs) > 0 {
@@ -426,6 +418,45 @@ func (w *c02World) step(tag string) c02StepResult {
 			w.trace("    record: %s", c02RenderRecord(cur.Status.NetworkInterfaces))
 		}
 	}
+	// a failed record write may lose what the controller was told in that pass; the loss
+	// is repaired by the next pass that completes a full sync and persists it
+	if w.writeErrs > w.writes {
+		w.writeLost = true
+		// The controller schedules a resync after a failed write only if the pass changed
+		// the cloud (StatusChanged). What a pass merely learned (full sync answer, names of
+		// half-created addresses) is lost silently: that is finding C08-lost-write-no-resync.
+		// A failed pass that did change the cloud must be followed by a resync.
+		w.failedWrites = 0 // 1: the latest failed pass had changed the cloud
+		for i := range res.calls {
+			if res.calls[i].Mutating() && res.calls[i].Err == "" {
+				w.failedWrites = 1
+				break
+			}
+		}
+	} else if w.writes > 0 {
+		for i := range res.calls {
+			if res.calls[i].Kind == cloudctl.KDescribe && res.calls[i].Err == "" && len(res.calls[i].IDs) == 0 {
+				w.writeLost = false
+				w.failedWrites = 0
+			}
+		}
+	}
+	// C08 (3), per pass: what the controller was told about and did not release must be in
+	// the record it persisted ("deleted or stays recorded for deletion")
+	if w.writeErrs == 0 && err == nil || w.writeErrs == 0 && w.writes > 0 {
+		if msg := w.c08Forgotten(cur); msg != "" {
+			switch {
+			case w.writeLost && w.failedWrites == 0 && c08Known("C08-lost-write-no-resync"):
+				w.c.Label("known:C08-lost-write-no-resync")
+			case len(w.nilMapHit) > 0 && c08Known("C08-sync-merge-nil-map"):
+				w.c.Label("known:C08-sync-merge-nil-map")
+			case strings.Contains(msg, "name:") && c08Known("C08-eflo-partial-key-collision"):
+				w.c.Label("known:C08-eflo-partial-key-collision")
+			case w.s.Mode == "C08":
+				w.fail("C08 rollback: after reconcile [%s] %s\nrecord: %s", tag, msg, c02RenderRecord(cur.Status.NetworkInterfaces))
+			}
+		}
+	}
 
 	// C08 (1): call-time quota monitors
 	w.mu.Lock()
@@ -435,7 +466,7 @@ func (w *c02World) step(tag string) c02StepResult {
 	var hard []string
 	for _, m := range mon {
 		switch {
-		case strings.HasPrefix(m.kind, "assign:") && c08NilFamily(prev, m.kind) && c08Known("C08-sync-merge-nil-map"):
+		case strings.HasPrefix(m.kind, "assign:") && (c08NilFamily(prev, m.kind) || w.c08NilMapHit(m.kind)) && c08Known("C08-sync-merge-nil-map"):
 			// the record holds no address map of that family for the interface, so the
 			// addresses the full sync was told about were dropped by mergeIPMap
 			w.c.Label("known:C08-sync-merge-nil-map")
@@ -453,7 +484,7 @@ func (w *c02World) step(tag string) c02StepResult {
 		case m.kind == "perkind" && emptyMode && c08Known("C08-rollback-record-lacks-mode"):
 			w.c.Label("known:C08-rollback-record-lacks-mode")
 			w.trace("    (known C08-rollback-record-lacks-mode: %s)", m.msg)
-		case lost != "" && w.writeLost && c08Known("C08-lost-write-no-resync"):
+		case lost != "" && w.writeLost && w.failedWrites == 0 && c08Known("C08-lost-write-no-resync"):
 			// the controller was told about resources a failed record write then lost, and
 			// it did not resynchronise before asking for more
 			w.c.Label("known:C08-lost-write-no-resync")
@@ -536,6 +567,14 @@ func (w *c02World) forceFullSync() {
 	w.must(w.base.Status().Update(w.ctx, n))
 }
 
+func (w *c02World) c08NilMapHit(kind string) bool {
+	parts := strings.Split(kind, ":")
+	if len(parts) != 3 {
+		return false
+	}
+	return w.nilMapHit[parts[1]+"/"+strings.TrimPrefix(parts[2], "IPv")]
+}
+
 // c08NilFamily: the record the pass started from has no address of that family on the
 // interface named in the monitor kind ("assign:<eni>:<family>").
 func c08NilFamily(n *networkv1beta1.Node, kind string) bool {
@@ -615,6 +654,63 @@ func (w *c02World) c08KnowledgeLost(n *networkv1beta1.Node, pods map[string]*c02
 		for a := range k.v6 {
 			if e.IPv6[a] == nil {
 				return "address " + a + " on " + id + " told but not in the persisted record"
+			}
+		}
+	}
+	return ""
+}
+
+// c08Forgotten: an interface or address the controller was told about (and has not been
+// told is gone, nor released itself) is missing from the record it just persisted.
+func (w *c02World) c08Forgotten(n *networkv1beta1.Node) string {
+	w.mu.Lock()
+	defer w.mu.Unlock()
+	ids := make([]string, 0, len(w.k))
+	for id := range w.k {
+		ids = append(ids, id)
+	}
+	sort.Strings(ids)
+	for _, id := range ids {
+		k := w.k[id]
+		if !k.counted && !k.byCreate {
+			continue
+		}
+		e := n.Status.NetworkInterfaces[id]
+		if e == nil {
+			if !k.counted {
+				continue // told it is not attached here any more
+			}
+			return "interface " + id + " (told to the controller, not released) is not in the persisted record"
+		}
+		if e.Status == aliyunClient.ENIStatusDeleting {
+			continue
+		}
+		for _, fam := range []struct {
+			k   map[string]bool
+			rec map[string]*networkv1beta1.IP
+		}{{k.v4, e.IPv4}, {k.v6, e.IPv6}} {
+			keys := make([]string, 0, len(fam.k))
+			for a := range fam.k {
+				keys = append(keys, a)
+			}
+			sort.Strings(keys)
+			for _, a := range keys {
+				if strings.HasPrefix(a, "name:") {
+					found := false
+					for _, ip := range fam.rec {
+						found = found || "name:"+ip.IPName == a
+					}
+					if !found {
+						return "address " + a + " on " + id + " (told to the controller, not released) is not in the persisted record"
+					}
+					continue
+				}
+				if fam.rec[a] == nil {
+					if os.Getenv("VERIF_C02_DUMP") != "" {
+						fmt.Printf("TRACE K[%s]=%+v\n", id, k)
+					}
+					return "address " + a + " on " + id + " (told to the controller, not released) is not in the persisted record"
+				}
 			}
 		}
 	}
